@@ -534,7 +534,9 @@ def inject_colors_arg_sets():
 #   every element whose value is a compile-time constant signal literal goes, with THAT value under ITS signal, into ONE constant
 #   node; every other element (a computed signal, a nested bundle) is lowered and becomes a source of ONE wire merge, together with
 #   the constant node if there is one; a single computed element needs no merge (it is the bundle); the result's members are exactly
-#   the elements' signals (a nested bundle contributes all of its members) and it refers to the node that carries them all.
+#   the signals the elements CARRY (a nested bundle contributes all of its members; inside a function a parameter carries its
+#   argument's signal, not the analyser's placeholder) and it refers to the node that carries them all; a signal that appears twice
+#   is an ERROR (one per repetition) — also when only the inlining of a call brings the two together.
 # Literals of two elements, each a constant literal / a non-constant literal / a computed signal / a nested bundle (bounded), values symbolic.
 # =================================================================================================
 from pyvc.ghost import ghost as _ghost2  # noqa: E402
@@ -550,10 +552,16 @@ def _bl_reset(a):
     return True
 
 
+def _bl_names(ex_or_contract):
+    c = getattr(ex_or_contract, "contract", ex_or_contract)
+    return getattr(c, "semantic_names", _NAMES), getattr(c, "actual_names", _NAMES)
+
+
 def _bl_type(kinds):
     def eff(ex, a):
         i = [id(e) for e in ex.args_ns.expr.elements].index(id(a.expr))
         kind = kinds[i]
+        _NAMES = _bl_names(ex)[0]   # the type the ANALYSER gave the element (a placeholder for a function parameter)
         if kind == "nested":
             t = SObj(["BundleValue"], fresh_name("btype"), lazy=False)
             t._fields["signal_types"] = set(_NESTED)
@@ -589,7 +597,7 @@ def _bl_lower(kinds):
             r._fields.update({"signal_types": set(_NESTED), "source_id": z3.String(fresh_name("nested_id"))})
         else:
             r = SObj(["SignalRef"], fresh_name("elem_ref"), lazy=False)
-            r._fields.update({"signal_type": _NAMES[i], "source_id": z3.String(fresh_name("elem_id"))})
+            r._fields.update({"signal_type": _bl_names(ex)[1][i], "source_id": z3.String(fresh_name("elem_id"))})   # the signal the value actually carries
         BL[("lowered", i)] = r
         return r
     return eff
@@ -612,16 +620,19 @@ def _bl_merge(ex, a):
     return r
 
 
-def _bl_post(kinds):
+def _bl_post(kinds, sem=_NAMES, act=_NAMES):
     def post(a, res):
-        consts = {_NAMES[i]: BL.get(("value", i)) for i, k in enumerate(kinds) if k == "const"}
+        consts = {sem[i]: BL.get(("value", i)) for i, k in enumerate(kinds) if k == "const"}
         computed = [BL.get(("lowered", i)) for i, k in enumerate(kinds) if k != "const"]
-        members = set()
+        members, duplicates = set(), 0
         for i, k in enumerate(kinds):
-            members |= _NESTED if k == "nested" else {_NAMES[i]}
+            # a constant literal is a member under the type it is written with, a computed element under the signal it CARRIES
+            mine = set(_NESTED) if k == "nested" else ({sem[i]} if k == "const" else {act[i]})
+            duplicates += len(mine & members)
+            members |= mine
         if any(c is None for c in computed) or any(v is None for v in consts.values()):
             return False
-        ok = ["BundleRef" in res._cls_set]
+        ok = ["BundleRef" in res._cls_set, len(BL.get("errors", [])) == duplicates]   # every signal once: one error per repeated member
         got_members = set(res.signal_types)
         if consts:
             ok.append(BL.get("const_map") is not None and set(BL["const_map"]) == set(consts) and all(BL["const_map"][k] is v for k, v in consts.items()))
@@ -640,7 +651,15 @@ def _bl_post(kinds):
     return post
 
 
-for _kinds in _it2c.product(("const", "literal", "computed", "nested"), repeat=2):
+_BL_SCENARIOS = [(k, _NAMES, _NAMES, "") for k in _it2c.product(("const", "literal", "computed", "nested"), repeat=2)]
+# inside a function: the analyser types a parameter by a placeholder, the lowered value carries the argument's signal
+_PH = ("__v1", "__v2")
+_BL_SCENARIOS += [(("computed", "computed"), _PH, ("signal-A", "signal-B"), "; parameters carrying different signals"),
+                  (("computed", "computed"), _PH, ("signal-A", "signal-A"), "; parameters carrying the SAME signal"),
+                  (("const", "computed"), ("signal-A", "__v2"), ("signal-A", "signal-A"), "; a parameter carrying the literal's signal"),
+                  (("nested", "computed"), _PH, ("signal-A", "signal-C"), "; a parameter carrying a member of the nested bundle"),
+                  (("computed", "nested"), _PH, ("signal-D", "signal-B"), "; a nested bundle with a member the parameter carries")]
+for _kinds, _sem, _act, _extra in _BL_SCENARIOS:
     _elem_t = []
     for _k in _kinds:
         if _k in ("const", "literal"):
@@ -653,7 +672,8 @@ for _kinds in _it2c.product(("const", "literal", "computed", "nested"), repeat=2
         qualname=ELQ2 + "lower_bundle_literal",
         params={"self": ty.TObj("ExpressionLowerer", only=("ExpressionLowerer",)), "expr": ty.TObj("BundleLiteral", only=("BundleLiteral",), ftypes=(("elements", ty.TTuple(tuple(_elem_t))),))},
         requires=[("(reset capture)", _bl_reset)],
-        ensures=[("constant literals in one constant node with their values, every other element a source of one merge, members = the elements' signals", _bl_post(_kinds))],
+        ensures=[("constant literals in one constant node with their values, every other element a source of one merge, members = the signals the elements carry, "
+                  "one error per signal that appears twice", _bl_post(_kinds, _sem, _act))],
         uses={"opaque.get_expr_type": Contract(qualname="dsl_compiler/src/semantic/analyzer.py::SemanticAnalyzer.get_expr_type", params={"self": _OPQ, "expr": _OPQ},
                                                effect=(lambda k: (lambda ex, a: _bl_type(k)(ex, type("NS", (), {"expr": a.args[0]})())))(_kinds), verify=False, note="type of the element"),
               "ConstantFolder.extract_constant_int": Contract(qualname="dsl_compiler/src/lowering/constant_folder.py::ConstantFolder.extract_constant_int",
@@ -665,10 +685,14 @@ for _kinds in _it2c.product(("const", "literal", "computed", "nested"), repeat=2
                                                  effect=_bl_bundle_const, verify=False, note="proved above: one constant node over a copy of the map"),
               "IRBuilder.wire_merge": Contract(qualname=IRB + "wire_merge", params={"self": _OPQ, "sources": _OPQ, "output_type": _OPQ, "source_ast": _OPQ}, defaults={"source_ast": None},
                                                effect=_bl_merge, verify=False, note="proved above: one merge node over the sources in order"),
+              "ExpressionLowerer._error": Contract(qualname=ELQ2 + "_error", params={"self": _OPQ, "message": _OPQ, "node": _OPQ}, defaults={"node": None},
+                                                   effect=lambda ex, a: BL.setdefault("errors", []).append(a.message), verify=False, note="records a compile error"),
+              "ExpressionLowerer._claim_bundle_members": "inline",
               "ExpressionLowerer.semantic": "inline", "ExpressionLowerer.ir_builder": "inline", "ExpressionLowerer.diagnostics": "inline"},
         dynamic_types={"self": {"parent": ty.TObj("ASTLowerer", only=("ASTLowerer",))},
                        "self.parent": {"semantic": ty.TOpaque("semantic"), "ir_builder": ty.TObj("IRBuilder", only=("IRBuilder",)), "diagnostics": ty.TOpaque("diag")}},
-        properties=("C02",), min_obligations=1, no_replay=True, note=f"elements: {_kinds[0]}, {_kinds[1]}"))
+        properties=("C02", "C14", "C15"), min_obligations=1, no_replay=True, note=f"elements: {_kinds[0]}, {_kinds[1]}{_extra}"))
+    CONTRACTS[-1].semantic_names, CONTRACTS[-1].actual_names = _sem, _act
 
 
 # =================================================================================================
